@@ -154,6 +154,110 @@ def extremal_vectors(rnd, ver):
     return out
 
 
+_LOOKUP_COVER = {}
+
+
+def lookup_cover_v4(rnd, seed=0):
+    """spec -> code: K = 4 vectors for every row of the v4 lookup table, generated by TLC (MC_GenV4.tla) from the preimages of the macro
+    vector under the specification's EQ functions; each effective value is written through the base metric or (seeded) through the
+    modified metric over another base value.  Returns (ver, minor, g, string, spec score in tenths)."""
+    from common import run_tlc, parse_gen, MachineryError
+    if seed not in _LOOKUP_COVER:
+        r = run_tlc("MC_GenV4", workers=1, timeout=900, seed=seed + 1)
+        gen = [parse_gen(l) for l in r.lines if l.startswith("GEN ")]
+        if not r.ok or len(gen) != 270 * 4:
+            raise MachineryError("MC_GenV4 produced %d vectors (%s)" % (len(gen), r.error))
+        _LOOKUP_COVER[seed] = gen
+    out = []
+    for x in _LOOKUP_COVER[seed]:
+        g = {}
+        for b, v in x["eff"].items():
+            if v == "S":                                   # Safety exists only as a modified value
+                g[b] = rnd.choice(["N", "L", "H"])
+                g["M" + b] = "S"
+            elif b in ("E", "CR", "IR", "AR") or rnd.random() < 0.6:
+                g[b] = v
+            else:                                          # carried by the modified metric over a different base value
+                g[b] = rnd.choice([w for w in VALS["4"][b] if w != v])
+                g["M" + b] = v
+        for m in ORDER["4"]:                               # a few supplemental metrics and explicit X
+            if m not in g and rnd.random() < 0.1:
+                g[m] = rnd.choice(VALS["4"][m]) if m in ("S", "AU", "R", "V", "RE", "U") else "X"
+        out.append(("4", -1, g, spell("4", -1, g, some_order(rnd, "4", g) if rnd.random() < 0.5 else None), x["score"]))
+    return out
+
+
+_COVERAGE = {}
+
+
+def coverage_vectors(seed=0):
+    """A small set of valid vectors that together reach every line-to-line transition of the working tree's library that a large
+    structured candidate set reaches (every v2 base vector x requirement / environment shapes, every v3 base vector x shapes,
+    sampled v4, covering and extremal vectors): rarely executed branches (clamps, caps, special cases) are in it by construction.
+    Computed once per source state (cached in the scratch directory by a digest of cvss/*.py)."""
+    import hashlib, glob, json, os, random, tempfile, shutil
+    from common import REPO, VERIF, run_driver, esc, unesc
+    h = hashlib.sha1()
+    for f in sorted(glob.glob(os.path.join(REPO, "cvss", "*.py"))):
+        h.update(open(f, "rb").read())
+    key = h.hexdigest()[:16] + "-%d" % seed
+    if key in _COVERAGE:
+        return _COVERAGE[key]
+    base = os.path.join(VERIF, ".work")
+    os.makedirs(base, exist_ok=True)
+    cache = os.path.join(base, "coverage-%s.json" % key)
+    if os.path.exists(cache):
+        try:
+            _COVERAGE[key] = [tuple(x) for x in json.load(open(cache))]
+            return _COVERAGE[key]
+        except ValueError:
+            pass
+    rnd = random.Random(seed * 7919 + 5)
+    cands = []
+    # v2: every base vector under shapes of requirements / environment / temporal metrics
+    shapes2 = [{}, {"CR": "L", "IR": "L", "AR": "L"}, {"CR": "H", "IR": "H", "AR": "H"}, {"CR": "L", "TD": "H", "CDP": "L"}, {"AR": "L", "CDP": "N"}, {"IR": "L", "TD": "N"},
+               {"E": "U", "RL": "OF", "RC": "UC"}, {"CDP": "H", "TD": "L", "CR": "H", "IR": "L", "AR": "ND"}, {"E": "ND", "RL": "ND", "RC": "ND"}, {"TD": "N"}]
+    for combo in itertools.product(*[VALS["2"][m] for m in MAND["2"]]):
+        for sh in shapes2:
+            g = dict(zip(MAND["2"], combo))
+            g.update(sh)
+            cands.append(("2", spell("2", -1, g)))
+    shapes3 = [{}, {"CR": "L", "IR": "L", "AR": "L"}, {"CR": "H", "IR": "H", "AR": "H"}, {"MS": "C"}, {"MS": "U"}, {"E": "U", "RL": "O", "RC": "U"},
+               {"MAV": "P", "MAC": "H", "MPR": "H", "MUI": "R", "MC": "N", "MI": "N", "MA": "L", "AR": "L"}, {"MC": "H", "MI": "H", "MA": "H", "CR": "H", "IR": "H", "AR": "H", "MS": "C"}]
+    for combo in itertools.product(*[VALS["3"][m] for m in MAND["3"]]):
+        for sh in rnd.sample(shapes3, 3):
+            g = dict(zip(MAND["3"], combo))
+            g.update(sh)
+            cands.append(("3", spell("3", rnd.choice([0, 1]), g)))
+    for ver in "234":
+        cands += [(ver, v[3]) for v in covering_vectors(rnd, ver) + extremal_vectors(rnd, ver)]
+        cands += [(ver, random_vector(rnd, ver, p_opt=rnd.choice([0.0, 0.1, 0.5, 0.9]))[3]) for _ in range(2500 if ver == "4" else 600)]
+    work = tempfile.mkdtemp(prefix="coverage-", dir=base)
+    try:
+        n = 16
+        size = (len(cands) + n - 1) // n
+        jobs = [{"out": os.path.join(work, "cov.%d.out" % k), "cands": [[v, esc(s)] for v, s in cands[k * size:(k + 1) * size]]} for k in range(n) if cands[k * size:(k + 1) * size]]
+        run_driver("coverage.py", jobs, work, name="cov")
+        chosen = []
+        for j in jobs:
+            chosen += json.load(open(j["out"]))["chosen"]
+        # second level: greedy cover over the jobs' choices
+        universe = set(a for c_ in chosen for a in c_[2])
+        uncovered, final = set(universe), []
+        while uncovered:
+            k = max(range(len(chosen)), key=lambda i: len(uncovered.intersection(chosen[i][2])))
+            gain = uncovered.intersection(chosen[k][2])
+            if not gain:
+                break
+            final.append((chosen[k][0], unesc(chosen[k][1])))
+            uncovered -= gain
+        json.dump(final, open(cache, "w"))
+        _COVERAGE[key] = final
+        return final
+    finally:
+        shutil.rmtree(work, ignore_errors=True)
+
+
 ALPHABET = list("AVCPRUISNLHMXDEFOTWYGacvnlx:/. 0134_-+") + ["\t", "\n", "é", "А", "{", "}", '"', "\\", "\x00", "\U0001F600", "\u0661", "\uff10", "\uff11", "\u00a0", "\u2003",
                                                                  # characters tied to ASCII letters by case folding / compatibility normalisation
                                                                  "\u212a", "\u017f", "\u0130", "\u0131", "\uff21", "\uff41", "\ufb01", "\u00df"]
@@ -343,7 +447,17 @@ def _f_long(rnd, s, ver):
     return pre + "/".join(f[:p] + [f[p] * rnd.choice([50, 400])] + f[p + 1:])
 
 
-FAULTS = [_f_empty_mid, _f_empty_front, _f_trailing, _f_fragment_in_value, _f_fragment_in_metric, _f_fragment_field, _f_fragment_in_prefix, _f_duplicate,
+def _f_token_inside(rnd, s, ver):
+    """a token of the grammar at an unexpected place: a version prefix (with / without its slash), a whole field, the whole vector
+    again, glued or separated"""
+    tok = rnd.choice(["CVSS:4.0/", "CVSS:3.1/", "CVSS:3.0/", "CVSS:4.0", "CVSS:3.1", "CVSS:", "CVSS", s, s.split("/")[-1], "/".join(s.split("/")[1:])])
+    pos = rnd.choice([len(s), len(s), rnd.randrange(len(s) + 1)])
+    glue = rnd.choice(["", "", "/", " ", "\n"])
+    tail = rnd.choice(["", "", "x", "AV:N", "junk/more", s.split("/")[-1]])
+    return s[:pos] + glue + tok + tail + s[pos:]
+
+
+FAULTS = [_f_token_inside, _f_empty_mid, _f_empty_front, _f_trailing, _f_fragment_in_value, _f_fragment_in_metric, _f_fragment_field, _f_fragment_in_prefix, _f_duplicate,
           _f_unknown_metric, _f_unknown_value, _f_missing_mandatory, _f_no_colon, _f_case, _f_space, _f_bad_prefix, _f_nonascii, _f_long]
 
 
